@@ -76,8 +76,8 @@ func ebpReadObs(data []byte) Val {
 	if err != nil {
 		return VErr(errCode(err))
 	}
-	o := ebpObs(e)
-	d := e.Data()
+	o := twice("EBP getters", func() Val { return ebpObs(e) })
+	d := keep("Data() of the decoded EBP", e.Data())
 	dfl := ebpU(e, "DataFieldLength")
 	return VOk(VL(o, VB(d), dfl, VBool(bytes.Equal(snap, data))))
 }
@@ -208,9 +208,9 @@ func init() {
 				return VBad()
 			}
 		}
-		before := ebpObs(e)
-		d := e.Data()
-		after := ebpObs(e)
+		before := twice("EBP getters", func() Val { return ebpObs(e) })
+		d := keep("Data()", e.Data())
+		after := twice("EBP getters", func() Val { return ebpObs(e) })
 		// decode a copy with cap == len (DESIGN section 3); a panic of the decoder is an observation of
 		// that step only
 		cp := make([]byte, len(d))
@@ -219,6 +219,50 @@ func init() {
 	}
 	register("ebp.build", build)
 	register("ebp.buildg", build) // model side: decoder with the C05 guard patch
+	// ebp.hist <start> <script>: ONE object, every getter after every step (each asked twice: a cache is plausible for
+	// the time), Data() as a step ([21 0]); start = [fl] or [x<bytes to decode>]
+	register("ebp.hist", func(a []Val) Val {
+		if len(a) != 2 || a[0].K != 2 || len(a[0].L) != 1 || a[1].K != 2 {
+			return VBad()
+		}
+		var e ebp.EncoderBoundaryPoint
+		fl := 0
+		decoded := a[0].L[0].K == 1
+		if decoded {
+			in := append([]byte{}, a[0].L[0].B...)
+			in = keep("input of ReadEncoderBoundaryPoint", in[:len(in):len(in)])
+			var err error
+			e, err = ebp.ReadEncoderBoundaryPoint(in)
+			if err != nil {
+				return VErr(errCode(err))
+			}
+			if _, ok := e.(ebpConc); ok {
+				fl = 1
+			}
+		} else {
+			fl = a[0].L[0].Int()
+			if fl != 0 && fl != 1 {
+				return VBad()
+			}
+			e = ebpCreate(fl)
+		}
+		look := func() Val { return twice("EBP getters", func() Val { return ebpObs(e) }) }
+		out := []Val{look()}
+		for _, s := range a[1].L {
+			extra := VL()
+			if s.K == 2 && len(s.L) == 2 && s.L[0].K == 0 && s.L[0].Int() == 21 {
+				extra = VB(keep("Data()", e.Data()))
+			} else if !ebpBuildStep(fl, e, s) {
+				return VBad()
+			}
+			out = append(out, VL(look(), extra))
+		}
+		r := Val{K: 2, L: out}
+		if decoded {
+			return VOk(r)
+		}
+		return r
+	})
 	register("ebp.time", func(a []Val) Val {
 		if len(a) != 2 || a[0].K != 0 || a[1].K != 0 || (a[0].Int() != 0 && a[0].Int() != 1) {
 			return VBad()
